@@ -751,6 +751,11 @@ def judge_fn(case, rec: Recorder | None = None) -> list[Disc]:
             feats = G.features(mast)
             pcls = 'flag-q' if 'q' in mflags else 'capturing-group' if 'grp' in feats else 'any-pattern'
             b = f'C12/fn/{kind}/{_subj_sig(ms)}/{pcls}'
+            # input classes of two recorded root causes (flags are minimised, so both are necessary)
+            if 'q' in mflags and 'x' in mflags:
+                b = f'C12/fn/flags-q-and-x/{kind.split(":")[0]}'
+            elif 'x' in mflags and 'lit:#' in feats:
+                b = f'C12/fn/xflag-hash-character/{kind.split(":")[0]}'
             if b not in seen:
                 seen.add(b)
                 discs.append(Disc(b, exp, obs, f'pattern={text!r} flags={flags!r} subject={s!r} minimal subject {ms!r} '
